@@ -40,6 +40,10 @@ def cases(tier, seed):
                     if entry != 'qr' and (ti + ml + len(h)) % 2 and tier != 'thorough':
                         continue    # secondary entry points: half of the grid
                     yield {'entry': entry, 'hist': list(h), 'ts': ti, 'maxlen': ml, 'query': 'query' if len(h) % 2 else 'query2'}
+    # queries without a level / without any element reach the handler as they are, through every entry point
+    for entry in ('qr', 'mwl', 'c_find'):
+        for q in ('query-nolevel', 'empty'):
+            yield {'entry': entry, 'hist': [0, 1], 'ts': 1, 'maxlen': 16384, 'query': q}
     for npend in range(depth + 1):
         for pend in itertools.product((0xFF00, 0xFF01), repeat=npend):
             for fin in FINALS:
@@ -109,7 +113,12 @@ def run_case(case):
         script.append('EHE')
     seen = []
     sae = _server_ae(ts, script if (len(case['hist']) % 2 or fails) else script_int, seen)
-    query = dsgen.make(case['query'])
+    if case['query'] == 'query-nolevel':
+        query = dsgen.make('query')
+        del query.QueryRetrieveLevel
+    else:
+        query = dsgen.make(case['query'])
+    query_before = dsgen.enc(query, ts)
     sop = MWL if entry == 'mwl' else PATIENT_FIND
     try:
         if entry == 'c_find':
@@ -151,12 +160,14 @@ def run_case(case):
     if len(tail) != 1 or tail[0][2] or tail[0][0] is not None:
         viol.append((sig + ':final', 'after the matches the SCU yielded %r (expected exactly one non-pending response without data set) (%s)' % (
             [(bool(d), '%04X' % s, p) for d, s, p in tail], where)))
-    if len(seen) != 1 or dsgen.enc(seen[0][1], ts) != dsgen.enc(query, ts):
+    if dsgen.enc(query, ts) != query_before:
+        viol.append((sig + ':query-modified', "the caller's query data set was changed by the call (%s)" % where))
+    if len(seen) != 1 or dsgen.enc(seen[0][1], ts) != query_before:
         viol.append((sig + ':query', 'handler saw %d queries / a different query data set (%s)' % (len(seen), where)))
     if link.scu.dul.inbox and [x for x in link.scu.dul.inbox if isinstance(x, tuple)]:
         viol.append((sig + ':queue', '%d DIMSE messages left unread (%s)' % (len(link.scu.dul.inbox), where)))
     nfrag = sum(len(i) for d, i in link.log if d == 'scp->scu' and isinstance(i, list))
-    return {'viol': viol, 'case': case if viol else None, 'key': (entry, tuple(case['hist']), case['ts'], case['maxlen']),
+    return {'viol': viol, 'case': case if viol else None, 'key': (entry, tuple(case['hist']), case['ts'], case['maxlen'], case['query']),
             'count': {'response_fragments': nfrag},
             'sample': dict(case, fragments=nfrag) if case['hist'] == [0, 2, 1] and case['maxlen'] == 128 else None}
 
